@@ -2508,3 +2508,120 @@ pub mod identfx {
         a.len() as i32 - b.len() as i32
     }
 }
+
+// ---------------------------------------------------------------- R-LOCKSPLIT through a locking getter / R-ATOM.lms through swap
+pub mod locksplit2 {
+    use std::sync::Mutex;
+    use std::sync::atomic::{AtomicUsize, Ordering};
+    pub struct Bump { pub mem: Mutex<usize>, pub head: AtomicUsize }
+    impl Bump {
+        fn used(&self) -> usize { *self.mem.lock().unwrap() }
+        pub fn bad_free(&self, offset: usize, size: usize) {
+            if offset + size == self.used() {
+                let mut m = self.mem.lock().unwrap();
+                *m = offset;
+            }
+        }
+        pub fn ok_free(&self, offset: usize, size: usize) {
+            let mut m = self.mem.lock().unwrap();
+            if offset + size == *m {
+                *m = offset;
+            }
+        }
+        pub fn bad_take_some(&self, keep: usize) -> usize {
+            let all = self.head.swap(0, Ordering::AcqRel);
+            let rest = all.saturating_sub(keep);
+            self.head.store(rest, Ordering::Release);
+            all - rest
+        }
+        pub fn push(&self, n: usize) { self.head.fetch_add(n, Ordering::AcqRel); }
+    }
+}
+
+// ---------------------------------------------------------------- R-ARITH.sum
+pub mod sumfx {
+    use super::*;
+    fn bad_model(freqs: &[u32; 4]) -> Result<u32> {
+        let total: u32 = freqs.iter().sum();
+        if total == 0 { return Err(ZiporaError("empty")); }
+        Ok(total)
+    }
+    fn ok_model(freqs: &[u32; 4]) -> Result<u32> {
+        let total = freqs.iter().try_fold(0u32, |a, &f| a.checked_add(f)).ok_or(ZiporaError("overflow"))?;
+        if total == 0 { return Err(ZiporaError("empty")); }
+        Ok(total)
+    }
+    fn ok_wide(freqs: &[u32; 4]) -> u64 { freqs.iter().map(|&f| f as u64).sum::<u64>() }
+    pub fn decode_bad(data: &[u8]) -> Result<u32> {
+        if data.len() < 16 { return Err(ZiporaError("short")); }
+        let mut f = [0u32; 4];
+        for i in 0..4 { f[i] = u32::from_le_bytes([data[i * 4], data[i * 4 + 1], data[i * 4 + 2], data[i * 4 + 3]]); }
+        bad_model(&f)
+    }
+    pub fn decode_ok(data: &[u8]) -> Result<u64> {
+        if data.len() < 16 { return Err(ZiporaError("short")); }
+        let mut f = [0u32; 4];
+        for i in 0..4 { f[i] = u32::from_le_bytes([data[i * 4], data[i * 4 + 1], data[i * 4 + 2], data[i * 4 + 3]]); }
+        Ok(ok_model(&f)? as u64 + ok_wide(&f))
+    }
+}
+
+// ---------------------------------------------------------------- R-STRSLICE
+pub mod strfx {
+    use super::*;
+    pub fn bad_parse(text: &str) -> Result<u8> {
+        let mut pos = 0;
+        while pos + 2 <= text.len() {
+            let b = text.as_bytes();
+            if !b[pos].is_ascii_hexdigit() || !b[pos + 1].is_ascii_hexdigit() {
+                let _quoted = &text[pos..pos + 2];
+                return Err(ZiporaError("bad digit pair"));
+            }
+            pos += 2;
+        }
+        Ok(pos as u8)
+    }
+    pub fn ok_parse(text: &str) -> Result<u8> {
+        let mut pos = 0;
+        while pos + 2 <= text.len() {
+            let b = text.as_bytes();
+            if !b[pos].is_ascii_hexdigit() || !b[pos + 1].is_ascii_hexdigit() {
+                let _quoted = text.get(pos..pos + 2);
+                return Err(ZiporaError("bad digit pair"));
+            }
+            pos += 2;
+        }
+        Ok(pos as u8)
+    }
+}
+
+// ---------------------------------------------------------------- R-FLUSHWHOLE
+pub mod flushfx {
+    use std::io::Write;
+    pub struct W<F: Write> { pub file: F, pub buffer: Vec<u8> }
+    impl<F: Write> W<F> {
+        pub fn bad_flush(&mut self) -> std::io::Result<()> {
+            if self.buffer.len() >= 4096 {
+                let whole = self.buffer.len() - self.buffer.len() % 4096;
+                self.file.write_all(&self.buffer[..whole])?;
+                self.buffer.clear();
+            }
+            Ok(())
+        }
+        pub fn ok_flush_all(&mut self) -> std::io::Result<()> {
+            if self.buffer.len() >= 4096 {
+                self.file.write_all(&self.buffer)?;
+                self.buffer.clear();
+            }
+            Ok(())
+        }
+        pub fn ok_flush_drain(&mut self) -> std::io::Result<()> {
+            if self.buffer.len() >= 4096 {
+                let whole = self.buffer.len() - self.buffer.len() % 4096;
+                self.file.write_all(&self.buffer[..whole])?;
+                self.buffer.drain(..whole);
+            }
+            Ok(())
+        }
+    }
+}
